@@ -462,95 +462,179 @@ pub fn replay(case: &Value) -> Vec<Violation> {
     }
 }
 
-pub fn run(ctx: &Ctx) -> Report {
-    quiet_panics();
-    let mut rep = Report::new("model_checking");
-    let thorough = ctx.tier.is_thorough();
-    let n = 9000usize;
-    let insts = instances(true);
-    let quick_names: Vec<&str> = instances(false).iter().map(|x| x.0).collect();
-    let ops = op_alphabet(thorough);
-    // work item = (instance, start state chunk)
+const SLOTS: u64 = 32;
+
+fn work_items(insts: &[(&'static str, Q)]) -> Vec<(usize, u8)> {
     let mut work: Vec<(usize, u8)> = vec![];
     for (ii, _) in insts.iter().enumerate() {
         for path in 0..3u8 {
             work.push((ii, path));
         }
     }
-    let (st, done) = par_for(ctx, work.len(), |w, st| {
+    work
+}
+
+fn programs(ops: &[Op], l: usize) -> Vec<Vec<Op>> {
+    // all sequences of length 0..=l over ops, shortest first
+    let mut progs: Vec<Vec<Op>> = vec![vec![]];
+    let mut frontier: Vec<Vec<Op>> = vec![vec![]];
+    for _ in 0..l {
+        let mut next = vec![];
+        for p in &frontier {
+            for o in ops {
+                let mut pp = p.clone();
+                pp.push(*o);
+                next.push(pp);
+            }
+        }
+        progs.extend(next.iter().cloned());
+        frontier = next;
+    }
+    progs
+}
+
+fn program_len(thorough: bool, in_quick: bool) -> usize {
+    // L per instance: quick L=2 on the quick set and L=1 on the others; thorough L=3 on the quick set, 2 on others
+    match (thorough, in_quick) {
+        (false, true) => 2,
+        (false, false) => 1,
+        (true, true) => 3,
+        (true, false) => 2,
+    }
+}
+
+const N_DOCS: usize = 9000;
+
+/// Worker entry: case index = work item (instance, path) * SLOTS + ordinal of the designated start state.
+/// Runs in its own process with an address-space cap: a docset that tries to allocate gigabytes or never
+/// returns is attributed to exactly one (instance, path, state, program).
+pub fn worker(_family: &str, start: u64, end: u64, step: u64, arg: &str) {
+    quiet_panics();
+    crate::iso::worker_guard(6 << 30, 20_000);
+    let thorough = arg == "thorough";
+    let n = N_DOCS;
+    let insts = instances(true);
+    let quick_names: Vec<&str> = instances(false).iter().map(|x| x.0).collect();
+    let ops = op_alphabet(thorough);
+    let work = work_items(&insts);
+    let c = corpus(n);
+    let mut refs: std::collections::HashMap<usize, Option<Vec<(DocId, f32)>>> = Default::default();
+    let mut progs_by_l: std::collections::HashMap<usize, Vec<Vec<Op>>> = Default::default();
+    let mut st = Stats::default();
+    let mut idx = start;
+    while idx < end {
+        let (w, si) = ((idx / SLOTS) as usize, (idx % SLOTS) as usize);
+        let this = idx;
+        idx += step;
         let (ii, path) = work[w];
         let (name, q) = &insts[ii];
-        // L per instance: quick L=2 on 12 instances and L=1 on the others; thorough L=3 on the quick set, 2 on others
-        let in_quick = quick_names.contains(name);
-        let l = match (thorough, in_quick) {
-            (false, true) => 2,
-            (false, false) => 1,
-            (true, true) => 3,
-            (true, false) => 2,
-        };
-        let c = corpus(n);
-        let seq = match catch_unwind(AssertUnwindSafe(|| reference(&c.0, q))) {
-            Ok(s) => s,
-            Err(e) => {
-                st.violation(Violation::new(
-                    "docset_panic",
-                    format!("{name} {}: plain advance enumeration panicked: {}", show(q), panic_message(e)),
-                    json!({"n":n,"query":q,"program":[],"start":0,"path":0,"rule_hint":"docset_panic"}),
-                ));
-                return;
+        crate::iso::set_current(this);
+        crate::iso::DETAIL.store(u64::MAX, std::sync::atomic::Ordering::SeqCst);
+        let seq = refs.entry(ii).or_insert_with(|| catch_unwind(AssertUnwindSafe(|| reference(&c.0, q))).ok());
+        let Some(seq) = seq.as_ref() else {
+            if si == 0 && path == 0 {
+                crate::iso::emit(&json!({"t":"V","rule":"docset_panic","what":"plain advance enumeration panicked","idx":this,"prog":-1}).to_string());
             }
+            continue;
         };
-        if path == 0 {
-            st.count_n("reference_elements", seq.len() as u64);
-            st.sample(json!({"instance":name,"query":show(q),"reference_len":seq.len(),"max_program_len":l}));
-        }
-        // strictly increasing reference
         let states = designated_states(seq.len());
-        // programs: all sequences of length 1..=l over ops (for l = 3 the first op ranges over all, the rest too)
-        let mut progs: Vec<Vec<Op>> = vec![vec![]];
-        let mut frontier: Vec<Vec<Op>> = vec![vec![]];
-        for _ in 0..l {
-            let mut next = vec![];
-            for p in &frontier {
-                // after count_including_deleted / SeekTerminated the set is exhausted: extending is still legal
-                for o in &ops {
-                    let mut pp = p.clone();
-                    pp.push(*o);
-                    next.push(pp);
+        if si == 0 && path == 0 {
+            st.count_n("reference_elements", seq.len() as u64);
+        }
+        if si >= states.len() {
+            continue;
+        }
+        let s0 = states[si];
+        let l = program_len(thorough, quick_names.contains(name));
+        let progs = progs_by_l.entry(l).or_insert_with(|| programs(&ops, l));
+        st.count("model_states");
+        for (pi, p) in progs.iter().enumerate() {
+            st.evaluations += 1;
+            st.count_n("transitions", p.len() as u64);
+            let skips = p.iter().any(|o| !matches!(o, Op::Advance | Op::SeekRel(0) | Op::DangerRel(0)));
+            if skips && !seq.is_empty() {
+                st.count("nontrivial");
+            }
+            crate::iso::DETAIL.store(pi as u64, std::sync::atomic::Ordering::SeqCst);
+            crate::iso::set_current(this);
+            let r = catch_unwind(AssertUnwindSafe(|| run_program(&c, q, seq, s0, path, p)));
+            let (rule, what) = match r {
+                Ok(Ok(())) => continue,
+                Ok(Err(e)) => ("docset_program_diverges".to_string(), e),
+                Err(e) => ("docset_panic".to_string(), format!("panic: {} [{}]", panic_message(e), last_panic())),
+            };
+            crate::iso::emit(&json!({"t":"V","rule":rule,"what":what,"idx":this,"prog":pi}).to_string());
+            // one failing program per (instance, state) is enough
+            break;
+        }
+        crate::iso::idle();
+    }
+    crate::iso::idle();
+    crate::iso::emit(&json!({"t":"S","evals":st.evaluations,"counters":st.counters}).to_string());
+    crate::iso::emit("DONE");
+}
+
+pub fn run(ctx: &Ctx) -> Report {
+    quiet_panics();
+    let mut rep = Report::new("model_checking");
+    let thorough = ctx.tier.is_thorough();
+    let n = N_DOCS;
+    let insts = instances(true);
+    let quick_names: Vec<&str> = instances(false).iter().map(|x| x.0).collect();
+    let ops = op_alphabet(thorough);
+    let work = work_items(&insts);
+    let total = work.len() as u64 * SLOTS;
+    let o = crate::iso::run_isolated(ctx, "C13", "progs", total, ctx.tier.name());
+    let mut st = Stats::default();
+    st.errors.extend(o.machinery_errors.clone());
+    let c = corpus(n);
+    let mut refs: std::collections::HashMap<usize, Vec<(DocId, f32)>> = Default::default();
+    // describe a (case index, program index) reported by a worker
+    let mut describe = |idx: u64, pi: i64, rule: &str, what: &str, st: &mut Stats| {
+        let (w, si) = ((idx / SLOTS) as usize, (idx % SLOTS) as usize);
+        let (ii, path) = work[w];
+        let (name, q) = &insts[ii];
+        if pi < 0 {
+            st.violation(Violation::new(rule, format!("{name} {}: {what}", show(q)), json!({"n":n,"query":q,"program":[],"start":0,"path":0,"rule_hint":rule})));
+            return;
+        }
+        let seq = refs.entry(ii).or_insert_with(|| catch_unwind(AssertUnwindSafe(|| reference(&c.0, q))).unwrap_or_default());
+        let states = designated_states(seq.len());
+        let s0 = states.get(si).copied().unwrap_or(0);
+        let l = program_len(thorough, quick_names.contains(name));
+        let progs = programs(&ops, l);
+        let p = progs.get(pi as usize).cloned().unwrap_or_default();
+        let rule = classify(rule, name, q, &p);
+        st.violation(Violation::new(
+            &rule,
+            format!("scorer {name} = {} on {n} docs, from state #{s0} (doc {}) reached by path {path}, program {p:?}: {what}", show(q), doc_at(seq, s0)),
+            json!({"n":n,"query":q,"program":p,"start":s0,"path":path,"rule_hint":rule}),
+        ));
+    };
+    for (kind, idx) in &o.crashes {
+        let pi = o.crash_detail.get(idx).copied().unwrap_or(u64::MAX);
+        let pi = if pi == u64::MAX { 0 } else { pi as i64 };
+        describe(*idx, pi, &format!("docset_{kind}"), &format!("the process did not return normally ({kind}: allocation failure / no return within 20 s)"), &mut st);
+    }
+    for l in &o.lines {
+        let Ok(v) = serde_json::from_str::<Value>(l) else { continue };
+        if v["t"] == "V" {
+            describe(v["idx"].as_u64().unwrap_or(0), v["prog"].as_i64().unwrap_or(0), v["rule"].as_str().unwrap_or("?"), v["what"].as_str().unwrap_or(""), &mut st);
+        } else if v["t"] == "S" {
+            st.evaluations += v["evals"].as_u64().unwrap_or(0);
+            if let Some(cn) = v["counters"].as_object() {
+                for (k, x) in cn {
+                    st.count_n(k, x.as_u64().unwrap_or(0));
                 }
             }
-            progs.extend(next.iter().cloned());
-            frontier = next;
         }
-        for &s0 in &states {
-            if path == 0 && s0 > 300 && s0 + 3 < seq.len() && s0 % 1024 > 2 && s0 % 1024 < 1021 {
-                // advance-only path to far states adds nothing over nearby ones; keep block boundaries
-            }
-            st.count("model_states");
-            for p in &progs {
-                st.eval();
-                st.count_n("transitions", p.len() as u64);
-                let skips = p.iter().any(|o| !matches!(o, Op::Advance | Op::SeekRel(0) | Op::DangerRel(0)));
-                if skips && !seq.is_empty() {
-                    st.nontrivial(&(ii, path, s0, p));
-                }
-                let r = catch_unwind(AssertUnwindSafe(|| run_program(&c, q, &seq, s0, path, p)));
-                let (rule, what) = match r {
-                    Ok(Ok(())) => continue,
-                    Ok(Err(e)) => ("docset_program_diverges".to_string(), e),
-                    Err(e) => ("docset_panic".to_string(), format!("panic: {} [{}]", panic_message(e), last_panic())),
-                };
-                let rule = classify(&rule, name, q, p);
-                st.violation(Violation::new(
-                    &rule,
-                    format!("scorer {name} = {} on {n} docs, from state #{s0} (doc {}) reached by path {path}, program {p:?}: {what}", show(q), doc_at(&seq, s0)),
-                    json!({"n":n,"query":q,"program":p,"start":s0,"path":path,"rule_hint":rule}),
-                ));
-                // one failing program per (instance, state) is enough
-                break;
-            }
-        }
-    });
+    }
+    for (ii, (name, q)) in insts.iter().enumerate().take(6) {
+        let l = program_len(thorough, quick_names.contains(name));
+        let len = refs.get(&ii).map(|s| s.len()).unwrap_or_else(|| catch_unwind(AssertUnwindSafe(|| reference(&c.0, q).len())).unwrap_or(0));
+        st.sample(json!({"instance":name,"query":show(q),"reference_len":len,"max_program_len":l}));
+    }
+    let done = if o.complete && o.completed == total { work.len() } else { 0 };
     rep.set("exhaustive", done == work.len());
     rep.set("scorer_instances", insts.len() as u64);
     rep.set("op_alphabet", ops.len() as u64);
@@ -566,6 +650,8 @@ pub fn run(ctx: &Ctx) -> Report {
     rep.assume("seek / seek_danger / fill_bitset_block are only issued with targets >= doc(), seek_danger candidates strictly increase (the documented contract); targets below doc() as Exclude issues them are covered through C03's queries");
     rep.assume("scores must be bit-identical however the document was reached");
     rep.merge_stats(&st);
+    rep.set("distinct_nontrivial", st.counters.get("nontrivial").copied().unwrap_or(0));
+    rep.assume("cases run in worker processes with a 6 GB address-space cap and a 20 s watchdog: an operation that aborts on an allocation failure or does not return is a violation attributed to its (instance, path, state, program)");
     rep.violations = st.violations;
     rep.machinery_errors.extend(st.errors);
     rep
